@@ -44,6 +44,10 @@ def unionS (a b : List Src) : List Src := b.foldl (fun acc x => if acc.contains 
 
 def lookupOuts (o : Outs) (c : String) : Option (List Src) := (o.find? (·.1 == c)).map (·.2)
 
+/-- a derived table / CTE column without any source (a literal): what a reference to it should report is not legislated
+    (the code reports the subquery column itself as a source) -/
+def sourceless (o : Outs) (c : String) : Bool := lookupOuts o c == some []
+
 /-- resolve one reference in a scope; `none` = not legislated -/
 def resolveRef (scope : List Rel) (qual : Option String) (c : String) : Option (List Src) :=
   match qual with
@@ -52,7 +56,8 @@ def resolveRef (scope : List Rel) (qual : Option String) (c : String) : Option (
     | [r] =>
       (match r.table with
         | some t => some [.base t c]
-        | none => some (match lookupOuts r.outs c with | some s => s | none => [.dangling r.alias c]))
+        | none => if sourceless r.outs c then none
+                  else some (match lookupOuts r.outs c with | some s => s | none => [.dangling r.alias c]))
     | _ => none                  -- unknown or ambiguous qualifier: not legislated
   | none =>
     match scope with
@@ -60,8 +65,10 @@ def resolveRef (scope : List Rel) (qual : Option String) (c : String) : Option (
     | [r] =>
       (match r.table with
         | some t => some [.base t c]
-        | none => some (match lookupOuts r.outs c with | some s => s | none => [.dangling r.alias c]))
+        | none => if sourceless r.outs c then none
+                  else some (match lookupOuts r.outs c with | some s => s | none => [.dangling r.alias c]))
     | many =>
+      if many.any (fun r => r.table.isNone && sourceless r.outs c) then none else
       -- positive disambiguation only: derived tables / CTEs that define the name
       let defs := many.filter (fun r => r.table.isNone && (lookupOuts r.outs c).isSome)
       if defs.isEmpty then some [.unresolved c]
@@ -74,13 +81,61 @@ def resolveRefs (scope : List Rel) : List (String × Option String) → Option (
     | some a, some b => some (unionS a b)
     | _, _ => none
 
-/-- D7 class: an alias (or name) of one relation equals the bare name of ANOTHER relation of the scope -/
+/-- scopes that are not legislated: (D7 class) a qualifier one relation answers to equals the bare name of ANOTHER relation
+    of the scope; the same qualifier twice; the same base table twice -/
 def scopeClash (scope : List Rel) : Bool :=
-  scope.any (fun r1 => scope.any (fun r2 =>
-    (r1.table != r2.table || r1.alias != r2.alias) &&
-    (match r2.bare with | some b => r1.answers.contains b && r1.bare != some b | none => false))) ||
-  -- the same relation name twice
-  (let names := scope.flatMap (·.answers); names.eraseDups.length != names.length)
+  let idx := scope.zipIdx
+  idx.any (fun r1 => idx.any (fun r2 =>
+    r1.2 != r2.2 && (match r2.1.bare with | some b => r1.1.answers.contains b | none => false))) ||
+  (let names := scope.flatMap (·.answers); names.eraseDups.length != names.length) ||
+  (let ts := scope.filterMap (·.table); ts.eraseDups.length != ts.length) ||
+  -- the same CTE referenced twice (one subquery node in the code)
+  (let cs := (scope.filter (·.table.isNone)).map (·.alias); cs.eraseDups.length != cs.length)
+
+mutual
+/-- names of all QUALIFIED column references anywhere in an expression / query (subqueries, WHERE, ON included) -/
+def qnExpr : Expr → List String
+  | .col qs c => if qs.isEmpty then [] else [Ident.escapeS c]
+  | .star _ | .lit _ => []
+  | .func _ _ args over => qnExprs args ++ (match over with | some (.mk p o) => qnExprs p ++ qnExprs o | none => [])
+  | .cast e _ => qnExpr e
+  | .case ws els => qnWhens ws ++ (match els with | some e => qnExpr e | none => [])
+  | .bin _ a b => qnExpr a ++ qnExpr b
+  | .paren e => qnExpr e
+  | .subq q => qnQuery q
+  | .inSubq e _ q => qnExpr e ++ qnQuery q
+  | .exist _ q => qnQuery q
+def qnExprs : List Expr → List String
+  | [] => []
+  | e :: r => qnExpr e ++ qnExprs r
+def qnWhens : List When → List String
+  | [] => []
+  | .mk c r :: rest => qnExpr c ++ qnExpr r ++ qnWhens rest
+def qnItems : List Item → List String
+  | [] => []
+  | .mk e _ _ :: r => qnExpr e ++ qnItems r
+def qnQuery : Query → List String
+  | .select _ its frm wh grp hav =>
+    qnItems its ++ qnFroms frm ++ (match wh with | some e => qnExpr e | none => []) ++ qnExprs grp ++
+      (match hav with | some e => qnExpr e | none => [])
+  | .setop (.mk q _) rest => qnQuery q ++ qnOpBranches rest
+  | .withq cs body => qnCtes cs ++ qnQuery body
+def qnOpBranches : List OpBranch → List String
+  | [] => []
+  | .mk _ (.mk q _) :: r => qnQuery q ++ qnOpBranches r
+def qnCtes : List Cte → List String
+  | [] => []
+  | .mk _ q :: r => qnQuery q ++ qnCtes r
+def qnElem : FromElem → List String
+  | .table _ _ _ => []
+  | .derived q _ _ => qnQuery q
+def qnJoins : List Join → List String
+  | [] => []
+  | .mk _ e on _ :: r => qnElem e ++ (match on with | some c => qnExpr c | none => []) ++ qnJoins r
+def qnFroms : List FromExpr → List String
+  | [] => []
+  | .mk b js :: r => qnElem b ++ qnJoins js ++ qnFroms r
+end
 
 def itemName (env : Env) : Item → Option String
   | .mk _ (some a) _ => some (Ident.escapeS a)
@@ -92,17 +147,16 @@ def itemExpr : Item → Expr
 
 mutual
 /-- outputs of a query; `cte`: visible CTEs with their outputs -/
-def outQuery (env : Env) (cte : List (String × Outs)) : Query → Option Outs
+def outQuery (env : Env) (qn : List String) (cte : List (String × Outs)) : Query → Option Outs
   | .select _ its frm _ _ _ =>
-    match scopeOf env cte frm with
+    match scopeOf env qn cte frm with
     | none => none
     | some scope =>
       if scopeClash scope then none
       else
         -- the assembler's evidence heuristic: an unqualified name also used with a qualifier is not legislated
         let allrefs := its.flatMap (fun it => refs (itemExpr it))
-        let qualifiedNames := (allrefs.filter (·.2.isSome)).map (·.1)
-        if allrefs.any (fun r => r.2.isNone && qualifiedNames.contains r.1) then none
+        if scope.length > 1 && allrefs.any (fun r => r.2.isNone && qn.contains (Ident.escapeS r.1)) then none
         else if its.any (fun it => hasSubq (itemExpr it)) then none
         else if allrefs.any (fun r => r.1 == "*") then none
         else
@@ -111,32 +165,32 @@ def outQuery (env : Env) (cte : List (String × Outs)) : Query → Option Outs
             | some l, some s => some (((itemName env it).getD "", s) :: l)     -- "" = display name not legislated
             | _, _ => none) (some [])
   | .setop first rest =>
-    match outBranch env cte first with
+    match outBranch env qn cte first with
     | none => none
     | some o1 =>
       if o1.any (fun p => p.2.isEmpty) then none           -- D6 class
-      else outOpBranches env cte o1 rest
+      else outOpBranches env qn cte o1 rest
   | .withq cs body =>
-    match outCtes env cte cs with
+    match outCtes env qn cte cs with
     | none => none
-    | some cte' => outQuery env cte' body
-def outBranch (env : Env) (cte : List (String × Outs)) : Branch → Option Outs
-  | .mk q _ => outQuery env cte q
-def outOpBranches (env : Env) (cte : List (String × Outs)) (acc : Outs) : List OpBranch → Option Outs
+    | some cte' => outQuery env qn cte' body
+def outBranch (env : Env) (qn : List String) (cte : List (String × Outs)) : Branch → Option Outs
+  | .mk q _ => outQuery env qn cte q
+def outOpBranches (env : Env) (qn : List String) (cte : List (String × Outs)) (acc : Outs) : List OpBranch → Option Outs
   | [] => some acc
   | .mk _ b :: r =>
-    match outBranch env cte b with
+    match outBranch env qn cte b with
     | none => none
     | some o =>
       if o.length != acc.length then none
-      else outOpBranches env cte ((acc.zip o).map (fun p => (p.1.1, unionS p.1.2 p.2.2))) r
-def outCtes (env : Env) (cte : List (String × Outs)) : List Cte → Option (List (String × Outs))
+      else outOpBranches env qn cte ((acc.zip o).map (fun p => (p.1.1, unionS p.1.2 p.2.2))) r
+def outCtes (env : Env) (qn : List String) (cte : List (String × Outs)) : List Cte → Option (List (String × Outs))
   | [] => some cte
   | .mk name q :: r =>
-    match outQuery env cte q with
+    match outQuery env qn cte q with
     | none => none
-    | some o => outCtes env (cte ++ [(Ident.escapeS name, o)]) r
-def relOf (env : Env) (cte : List (String × Outs)) : FromElem → Option Rel
+    | some o => outCtes env qn (cte ++ [(Ident.escapeS name, o)]) r
+def relOf (env : Env) (qn : List String) (cte : List (String × Outs)) : FromElem → Option Rel
   | .table parts alias _ =>
     match parts with
     | [n] =>
@@ -156,19 +210,19 @@ def relOf (env : Env) (cte : List (String × Outs)) : FromElem → Option Rel
         | some a => some ⟨[Ident.escapeS a], some n, some t, "", []⟩
         | none => some ⟨[n, t], some n, some t, "", []⟩)
   | .derived q alias _ =>
-    match outQuery env cte q, alias with
+    match outQuery env qn cte q, alias with
     | some o, some a => some ⟨[Ident.escapeS a], none, none, Ident.escapeS a, o⟩
     | _, _ => none
-def relsOfJoins (env : Env) (cte : List (String × Outs)) : List Join → Option (List Rel)
+def relsOfJoins (env : Env) (qn : List String) (cte : List (String × Outs)) : List Join → Option (List Rel)
   | [] => some []
   | .mk _ e _ _ :: r =>
-    match relOf env cte e, relsOfJoins env cte r with
+    match relOf env qn cte e, relsOfJoins env qn cte r with
     | some a, some b => some (a :: b)
     | _, _ => none
-def scopeOf (env : Env) (cte : List (String × Outs)) : List FromExpr → Option (List Rel)
+def scopeOf (env : Env) (qn : List String) (cte : List (String × Outs)) : List FromExpr → Option (List Rel)
   | [] => some []
   | .mk base js :: r =>
-    match relOf env cte base, relsOfJoins env cte js, scopeOf env cte r with
+    match relOf env qn cte base, relsOfJoins env qn cte js, scopeOf env qn cte r with
     | some a, some b, some c => some (a :: b ++ c)
     | _, _, _ => none
 end
@@ -177,10 +231,13 @@ end
 def colflow (env : Env) : Stmt → Option (List (String × String))
   | s =>
     let go := fun (tgt : List String) (cols : Option (List String)) (q : Query) =>
-      match outQuery env [] q with
+      match outQuery env (qnQuery q) [] q with
       | none => none
       | some outs =>
         let t := tableName env tgt
+        -- a statement that reads its own target is not legislated (the target's columns then count as evidence for
+        -- unqualified names in the assembler's late resolution)
+        if (rdQuery env [] q).contains t then none else
         let names : Option (List String) :=
           match cols with
           | some cs => if cs.length == outs.length then some (cs.map Ident.escapeS) else none
